@@ -9,9 +9,64 @@ W = "bigtools/src/bbi/bbiwrite.rs"
 
 
 def _normalizer_props(ctx, fn):
-    """which normalisation steps does `fn` (Vec<u32> -> Vec<u32>) perform on its parameter"""
+    """which normalisation steps does `fn` (Vec<u32> -> Vec<u32>) perform on its parameter: decided by evaluating it on small lists"""
     if fn.body is None or not fn.params:
         return set()
+    from ..rules.interp import Interp, NotPure
+    mz = ctx.ast.const(W, "MAX_ZOOM_LEVELS")
+    MAXZ = int_value(mz["e"]) or 10
+    holder = [None]
+
+    def method(m, recv, args):
+        it = holder[0]
+        if isinstance(recv, list):
+            if m == "retain" and len(args) == 1:
+                recv[:] = [x for x in recv if it.apply_closure(args[0], [x])]
+                return None
+            if m in ("sort", "sort_unstable") and not args:
+                recv.sort()
+                return None
+            if m == "dedup" and not args:
+                out = []
+                for x in recv:
+                    if not out or out[-1] != x:
+                        out.append(x)
+                recv[:] = out
+                return None
+            if m == "truncate" and len(args) == 1 and isinstance(args[0], int):
+                del recv[args[0]:]
+                return None
+            if m in ("into_iter", "iter", "copied", "cloned", "collect", "to_vec") and not args:
+                return list(recv)
+            if m == "filter" and len(args) == 1:
+                return [x for x in recv if it.apply_closure(args[0], [x])]
+            if m == "take" and len(args) == 1 and isinstance(args[0], int):
+                return recv[:args[0]]
+            if m == "len" and not args:
+                return len(recv)
+        raise NotPure("method %s" % m)
+
+    def run(lst):
+        it = Interp(ctx.ast, W, extern={"None": None, "method": method})
+        holder[0] = it
+        return it.call(fn, [list(lst)])
+    props = set()
+    try:
+        if run([0, 20, 0, 100]) == [20, 100] or 0 not in (run([0, 20, 0, 100]) or [0]):
+            props.add("nonzero")
+        if run([100, 20, 60]) == [20, 60, 100]:
+            props.add("sorted")
+        if run([20, 100, 20, 20]) == [20, 100]:
+            props.add("dedup")
+        r = run(list(range(1, MAXZ + 6)))
+        if isinstance(r, list) and len(r) <= MAXZ:
+            props.add("bounded")
+    except NotPure:
+        return _normalizer_props_text(ctx, fn)
+    return props
+
+
+def _normalizer_props_text(ctx, fn):
     p = fn.params[0][0]
     t = up(fn.body)
     props = set()
@@ -23,9 +78,6 @@ def _normalizer_props(ctx, fn):
         props.add("dedup")
     if re.search(r"%s\.truncate\(MAX_ZOOM_LEVELS\)" % p, t) or re.search(r"\.take\(MAX_ZOOM_LEVELS\)", t):
         props.add("bounded")
-    st = fn.body["stmts"]
-    if not (st and st[-1].k == "expr_stmt" and not st[-1]["semi"] and up(strip(st[-1]["e"])) == p):
-        return set()
     return props
 
 
@@ -75,12 +127,16 @@ def ob_zoom_list(ctx, res):
     sites.append((wv, sc[0]["args"][-1], "write_vals: per-chromosome zoom channels"))
     sites.append((wv, strip(mk[0]["recv"]), "write_vals: per-level staging buffers"))
     zw = ctx.ast.fn(W, "write_zoom_vals")
-    loops = [n for n in walk_no_nested_fn(zw.body) if n.k == "for" and "TempFileBuffer::new" in up(n["body"])]
+    from ..astq import iter_loops
+    loops = [n for n in iter_loops(zw.body) if "TempFileBuffer::new" in up(n["body"])]
     if len(loops) != 1:
         res.fail("zoomList/write_zoom_vals/sites", zw, "expected the loop creating one staging buffer per zoom level")
         return
     sites.append((zw, loops[0]["iter"], "write_zoom_vals: per-level staging buffers"))
-    inner = [n for n in walk_no_nested_fn(zw.body) if n.k == "for" and "future_channel" in up(n["body"])]
+    inner = [n for n in iter_loops(zw.body) if "future_channel" in up(n["body"])]
+    inner = [n for n in inner if not any(m is not n and any(x is n.node for x in walk_no_nested_fn(m["body"])) and "future_channel" in up(m["body"]) and False for m in inner)]
+    if len(inner) > 1:
+        inner = sorted(inner, key=lambda n: -n.order)[:1]      # the innermost loop that creates the channels
     if len(inner) != 1:
         res.fail("zoomList/write_zoom_vals/chrom-sites", zw, "expected the loop creating per-chromosome zoom channels")
         return
